@@ -26,6 +26,14 @@ def generate(rng, tier, idx):
         d = kit.dump_op(K, rng)
         d.pop("to", None)
         ops.append(d)
+        down = {"M-CI": {"op": "ci_downgrade", "version": pick(rng, ["1.1", "1.0", "0.3"])},
+                "M-IM": {"op": "im_downgrade", "version": pick(rng, ["1.0", "1.1"])},
+                "M-RP": {"op": "rp_downgrade", "version": pick(rng, ["0.3", "1.0", "1.1"])},
+                "M-TI": {"op": "ti_downgrade", "version": pick(rng, ["1.1", "1.0", "0.3"])}}.get(kit.machine)
+        if down and rng.random() < 0.3:
+            # the good copy at the destination was written by an OLDER release of the software (a compose being re-generated
+            # in place after an upgrade): it is the last good copy all the same
+            ops.append(dict(down, path=path))
         if rng.random() < 0.4:
             # the object whose later dumps are refused was LOADED from the good copy (not built through the API)
             ops.append({"op": "restart", "path": path, "via": pick(rng, ["path", "handle", "loads"]), "offset": rng.randint(0, 500)})
